@@ -371,29 +371,30 @@ Proof.
 Qed.
 
 (* The output string is the concatenation of the marker list whose marker is a single space (which is
-   not a unit: units are non-empty and whitespace-free), whatever the word separator: seg_loop_spec,
-   boundary_iff, boundary_at and threshold_monotone with wordsep := [sp] describe the spaces of the output. *)
-Theorem segment_utt_seg_loop : forall (t : list ((str * str) * Q)) (thr : Q) (wordsep utt p0 : str)
+   not a unit: units are non-empty and whitespace-free); since fix 1af026b the word separator of the train
+   text plays no part (the units are those of str.split on the utterance): seg_loop_spec, boundary_iff,
+   boundary_at and threshold_monotone with wordsep := [sp] describe the spaces of the output. *)
+Theorem segment_utt_seg_loop : forall (t : list ((str * str) * Q)) (thr : Q) (utt p0 : str)
                                       (rest : list str),
-  split_ws (replace_all wordsep [sp] utt) = p0 :: rest ->
-  segment_utt t thr wordsep utt = Ok (concat (p0 :: seg_loop t thr [sp] p0 rest)).
+  split_ws utt = p0 :: rest ->
+  segment_utt t thr utt = Ok (concat (p0 :: seg_loop t thr [sp] p0 rest)).
 Proof.
-  intros t thr wordsep utt p0 rest E. unfold segment_utt. rewrite E. f_equal.
+  intros t thr utt p0 rest E. unfold segment_utt. rewrite E. f_equal.
   rewrite seg_words_words. unfold dibs_words.
   change (p0 :: fst (dibs_cut t thr p0 rest)) with ([p0] ++ fst (dibs_cut t thr p0 rest)).
   rewrite dibs_cut_join. cbn [concat]. now rewrite app_nil_r.
 Qed.
 
 (* the words read back from the output (str.split) are the words built by the loop *)
-Theorem segment_utt_words : forall (t : list ((str * str) * Q)) (thr : Q) (wordsep utt out p0 : str)
+Theorem segment_utt_words : forall (t : list ((str * str) * Q)) (thr : Q) (utt out p0 : str)
                                    (rest : list str),
-  split_ws (replace_all wordsep [sp] utt) = p0 :: rest ->
-  segment_utt t thr wordsep utt = Ok out ->
+  split_ws utt = p0 :: rest ->
+  segment_utt t thr utt = Ok out ->
   split_ws out = map (@concat char) (seg_words t thr p0 rest [p0] []).
 Proof.
-  intros t thr wordsep utt out p0 rest E H. unfold segment_utt in H. rewrite E in H.
+  intros t thr utt out p0 rest E H. unfold segment_utt in H. rewrite E in H.
   injection H as <-. apply split_ws_join.
-  pose proof (split_ws_ok (replace_all wordsep [sp] utt)) as Hok. rewrite E in Hok.
+  pose proof (split_ws_ok utt) as Hok. rewrite E in Hok.
   rewrite <- (seg_words_concat t thr p0 rest) in Hok.
   pose proof (seg_words_nonnil t thr p0 rest) as Hnn.
   induction (seg_words t thr p0 rest [p0] []) as [|g gs IH]; [constructor|].
@@ -406,17 +407,17 @@ Qed.
 (* positional form on the output string: at the i-th adjacent pair (x, y) of units, the output is what is
    rendered for the units up to x, then one space iff thr < P(x, y) (nothing otherwise), then y, then what
    is rendered after y *)
-Theorem segment_utt_boundary_at : forall (t : list ((str * str) * Q)) (thr : Q) (wordsep utt p0 : str)
+Theorem segment_utt_boundary_at : forall (t : list ((str * str) * Q)) (thr : Q) (utt p0 : str)
                                          (rest : list str) (i : nat) (x y : str),
-  split_ws (replace_all wordsep [sp] utt) = p0 :: rest ->
+  split_ws utt = p0 :: rest ->
   nth_error (combine (p0 :: rest) rest) i = Some (x, y) ->
-  segment_utt t thr wordsep utt =
+  segment_utt t thr utt =
   Ok (concat (p0 :: seg_loop t thr [sp] p0 (firstn i rest))
       ++ (if qlt_b thr (dget t (x, y)) then [sp] else []) ++ y
       ++ concat (seg_loop t thr [sp] y (skipn (S i) rest))).
 Proof.
-  intros t thr wordsep utt p0 rest i x y E Hn.
-  rewrite (segment_utt_seg_loop t thr wordsep utt p0 rest E). f_equal.
+  intros t thr utt p0 rest i x y E Hn.
+  rewrite (segment_utt_seg_loop t thr utt p0 rest E). f_equal.
   rewrite (boundary_at t thr [sp] p0 rest i x y Hn) at 1.
   cbn [concat]. rewrite !concat_app, <- !app_assoc. f_equal. f_equal.
   destruct (qlt_b thr (dget t (x, y))); cbn [concat app]; now rewrite ?app_nil_r.
@@ -457,19 +458,19 @@ Qed.
 (* The same, reading the output string around the pair: for the i-th adjacent pair (x, y) of units,
    the output is a ++ x ++ [one space iff thr < P(x, y)] ++ y ++ b, where a and b are, up to spaces,
    the units before x and the units after y *)
-Theorem segment_utt_boundary_between : forall (t : list ((str * str) * Q)) (thr : Q) (wordsep utt out p0 : str)
+Theorem segment_utt_boundary_between : forall (t : list ((str * str) * Q)) (thr : Q) (utt out p0 : str)
                                               (rest : list str) (i : nat) (x y : str),
-  split_ws (replace_all wordsep [sp] utt) = p0 :: rest ->
+  split_ws utt = p0 :: rest ->
   nth_error (combine (p0 :: rest) rest) i = Some (x, y) ->
-  segment_utt t thr wordsep utt = Ok out ->
+  segment_utt t thr utt = Ok out ->
   exists a b : str,
     out = a ++ x ++ (if qlt_b thr (dget t (x, y)) then [sp] else []) ++ y ++ b /\
     despace a = concat (firstn i (p0 :: rest)) /\
     despace b = concat (skipn (S i) rest).
 Proof.
-  intros t thr wordsep utt out p0 rest i x y E Hn H.
-  rewrite (segment_utt_boundary_at t thr wordsep utt p0 rest i x y E Hn) in H. injection H as <-.
-  pose proof (split_ws_ok (replace_all wordsep [sp] utt)) as Hok. rewrite E in Hok.
+  intros t thr utt out p0 rest i x y E Hn H.
+  rewrite (segment_utt_boundary_at t thr utt p0 rest i x y E Hn) in H. injection H as <-.
+  pose proof (split_ws_ok utt) as Hok. rewrite E in Hok.
   assert (Hx : nth_error (p0 :: rest) i = Some x).
   { clear - Hn. revert p0 i Hn. induction rest as [|u r IH]; intros p0 i Hn; [destruct i; discriminate Hn|].
     change (combine (p0 :: u :: r) (u :: r)) with ((p0, u) :: combine (u :: r) r) in Hn.
